@@ -81,7 +81,7 @@ def emplaceOwn (w : World) (path fn : Str) (lines : List Str) : CodeModel :=
     if lost.isEmpty then own
     else
       let key := Path.abspath w.cwd path ++ lostSuffix
-      own ++ [(key, (lost.map (fun kb => lostLines path kb.1 kb.2)).flatten)]
+      own ++ [(key, (lost.map (fun kb => lostLines (Path.abspath w.cwd path) kb.1 kb.2)).flatten)]
 
 /-- `preserve_usercode_in_files(codemodel)` (preserve_dir = "") -/
 def preservePass (w : World) (outdir : Str) (cm : CodeModel) : CodeModel :=
